@@ -25,6 +25,7 @@ Proof.
   set (s1 := write_block b s). assert (H1 : P s1) by (apply fr_write_block; auto).
   set (s2 := if broot b =? broot p then s1 else wr [WState (broot b)] s1).
   assert (H2 : P s2) by (unfold s2; destruct (broot b =? broot p); auto; apply (pc_wr P HP); auto).
+  match goal with |- context [if ?c then (wr ?rc s2, ENone) else _] => destruct c; [cbn [fst]; apply (pc_wr P HP); exact H2|] end.
   destruct (if bpar b =? cur s2 then Some [] else match info t (cur s2) with Some c => reorg t (disk_of s2) c b | None => None end) as [rg|];
     [|exact H2].
   cbn [fst]. apply (pc_future P HP). apply (pc_cur P HP). apply (pc_wr P HP); auto.
